@@ -3,8 +3,8 @@
    All theorems hold for every dimension (1 + length (Lr lat)), all sizes, every unit cell size and
    every order array that lists distinct sites of the box (regular lattices: all of them; irregular
    lattices: a subset), finite and infinite MPS boundary conditions. *)
-From TenpyV Require Import Base.Prelude Model.Lattice Model.LatticeVals Model.LatticeMulti.
-From TenpyV Require Import Proofs.LatticeP Proofs.LatticeP2 Proofs.LatticeP3.
+From TenpyV Require Import Base.Prelude Model.Lattice Model.LatticeVals Model.LatticeMulti Model.LatticeTransform.
+From TenpyV Require Import Proofs.LatticeP Proofs.LatticeP2 Proofs.LatticeP3 Proofs.LatticeTransformP.
 Open Scope Z_scope.
 
 (* get_order with priority=None (C-style and every combination of snake flags) enumerates every lattice
@@ -184,6 +184,65 @@ Example T19_example_irregular :
   coupling_pairs ex_irregular 1 0 0 [1] = [(2, 0); (3, 1); (10, 5); (14, 12); (15, 13); (16, 11)].
 Proof. vm_compute. repeat split. Qed.
 
+(* Lattice.enlarge_mps_unit_cell(f) (Model/LatticeTransform.v `enlarge`, run against the code in the stream
+   "model-transform": Ls[0], N_sites and the order after enlarge_mps_unit_cell / extract_segment) of an infinite
+   lattice: the new MPS unit cell has f * N_sites sites and f * Ls[0] rings, and the (periodically extended) map
+   MPS index -> lattice index is unchanged - so T19_index_inverse etc. transfer to the enlarged lattice and
+   N_sites must equal the length of the new order.  Any dimension, any order, any f >= 1. *)
+Theorem T19_enlarge_keeps_index_map : forall (f : nat) lat,
+  (0 < f)%nat -> infinite lat = true -> lorder lat <> [] ->
+  nsites (enlarge f lat) = Z.of_nat f * nsites lat /\
+  L0 (enlarge f lat) = Z.of_nat f * L0 lat /\
+  forall i, mps2lat (enlarge f lat) i = mps2lat lat i.
+Proof. exact enlarge_keeps_index_map. Qed.
+
+(* a snake-ordered 2x2 square lattice, infinite MPS: enlarged by 3 it has 12 sites, MPS site 9 = site 1 shifted by two
+   old unit cells *)
+Definition ex_snake_inf : lattice :=
+  mkLat 2 [2] 1 false [false] [0] true [(0, [0], 0); (0, [1], 0); (1, [1], 0); (1, [0], 0)].
+
+Example T19_example_enlarge :
+  infinite ex_snake_inf = true /\ lorder ex_snake_inf <> [] /\
+  nsites (enlarge 3 ex_snake_inf) = 12 /\
+  nth_error (lorder (enlarge 3 ex_snake_inf)) 9 = Some (4, [1], 0) /\
+  mps2lat (enlarge 3 ex_snake_inf) 9 = Some (4, [1], 0) /\ mps2lat ex_snake_inf 9 = Some (4, [1], 0).
+Proof. vm_compute. repeat split. discriminate. Qed.
+
+(* MultiSpeciesLattice: u = simple_u * N_species + species (simple_u_to_species_u) is a bijection between
+   (site of the simple unit cell, species) and the unit cell indices 0 <= u < simple_Lu * N_species, inverted by
+   self_u_to_simple_u = u // N_species and self_u_to_species_idx = u % N_species. *)
+Theorem T19_species_index_bijection : forall nsp slu, 0 < nsp ->
+  (forall su sp, 0 <= su < slu -> 0 <= sp < nsp ->
+     0 <= ms_u nsp su sp < slu * nsp /\ ms_simple_u nsp (ms_u nsp su sp) = su /\ ms_species nsp (ms_u nsp su sp) = sp) /\
+  (forall u, 0 <= u < slu * nsp ->
+     0 <= ms_simple_u nsp u < slu /\ 0 <= ms_species nsp u < nsp /\ ms_u nsp (ms_simple_u nsp u) (ms_species nsp u) = u).
+Proof. exact species_index_bijection. Qed.
+
+(* MultiSpeciesLattice._generate_new_pairs (model functions ms_pairs_sp / ms_pairs_all / ms_onsite, run against the
+   code in the stream "model-species"): pairs['<key>_<a>-<b>'] are exactly the (u1, u2, dx) whose first site has
+   species a, whose second site has species b and whose simple sites form a pair (su1, su2, dx) of pairs[key] of the
+   simple lattice; '<key>_all-all' are all (u1, u2, dx) over such a simple pair; 'onsite_<a>-<b>' are exactly species a
+   and species b on one and the same simple site with dx = 0.  (That species / simple site of a unit cell index are
+   u % N_species / u // N_species - i.e. that sites and positions are laid out that way - is checked by the oracle
+   from the site objects and unit_cell_positions.) *)
+Theorem T19_species_pairs : forall nsp slu dim ps, 0 < nsp ->
+  (forall a b, 0 <= a < nsp -> 0 <= b < nsp -> forall u1 u2 dx,
+     In (u1, u2, dx) (ms_pairs_sp nsp a b ps) <->
+     ms_species nsp u1 = a /\ ms_species nsp u2 = b /\ In (ms_simple_u nsp u1, ms_simple_u nsp u2, dx) ps) /\
+  (forall u1 u2 dx,
+     In (u1, u2, dx) (ms_pairs_all nsp ps) <-> In (ms_simple_u nsp u1, ms_simple_u nsp u2, dx) ps) /\
+  (forall a b, 0 <= a < nsp -> 0 <= b < nsp -> forall u1 u2 dx,
+     In (u1, u2, dx) (ms_onsite nsp slu dim a b) <->
+     ms_species nsp u1 = a /\ ms_species nsp u2 = b /\ ms_simple_u nsp u1 = ms_simple_u nsp u2 /\
+     0 <= ms_simple_u nsp u1 < slu /\ dx = repeat 0 dim).
+Proof. exact species_pairs. Qed.
+
+(* Ladder (rung pair (0, 1, [0])) with 3 species: the rung of species 0-0 connects u = 0 and u = 3 *)
+Example T19_example_species :
+  ms_pairs_sp 3 0 0 [(0, 1, [0]); (0, 0, [1]); (1, 1, [1])] = [(0, 3, [0]); (0, 0, [1]); (3, 3, [1])] /\
+  ms_onsite 3 2 1 0 2 = [(0, 2, [0]); (3, 5, [0])].
+Proof. vm_compute. split; reflexivity. Qed.
+
 Print Assumptions T19_get_order_perm.
 Print Assumptions T19_get_order_priority_perm.
 Print Assumptions T19_index_inverse.
@@ -192,3 +251,6 @@ Print Assumptions T19_values_reshape_fix_u.
 Print Assumptions T19_couplings_exact.
 Print Assumptions T19_couplings_shift_refuted.
 Print Assumptions T19_multi_couplings_exact.
+Print Assumptions T19_enlarge_keeps_index_map.
+Print Assumptions T19_species_index_bijection.
+Print Assumptions T19_species_pairs.
